@@ -57,7 +57,7 @@ def run(O, P):
     jobs, meta = [], []
     for case, r, calls in results:
         cin, cout, m = calls[0]
-        if cout.get("outcome") == "ok" and cout["result"]["metrics"]["status"] == "modified":
+        if C.is_modified(cout):
             jobs.append({"id": case["id"], "input": cin["code"], "output": cout["result"]["content"], "exempt_coercion_order": "`" in cin["code"]})
             meta.append((case, m or {}))
     res = vlib.run_node("diff_exec.js", jobs, timeout=3000) if jobs else []
@@ -95,7 +95,7 @@ def run(O, P):
             cand = "\n".join(l for l in lines if not l.startswith("  try") or l == st)
             cc = dict(case, calls=[{"code": cand, "file": "exec.js"}])
             rr2 = C.run_cases([cc], "model", "c01s")[0][2][0][1]
-            if rr2.get("outcome") == "ok" and rr2["result"]["metrics"]["status"] == "modified":
+            if C.is_modified(rr2):
                 d = vlib.run_node("diff_exec.js", [{"id": "s", "input": cand, "output": rr2["result"]["content"], "exempt_coercion_order": "`" in cand}])
                 if d and not d[0]["equal"]:
                     best = cand; rr = d[0]
